@@ -307,6 +307,12 @@ def eval_case(job):
             r10 = BFFM2_EINOx(ev, tmv(*(10 * 10.0 ** c[k] for k in ('e1', 'e2', 'e3', 'e4'))), ffp, **amb)
             if not np.allclose(np.asarray(r10.NOxEI), 10 * n, rtol=1e-9):
                 devs.append(('nox:not-linear-in-certification-index', f'scaling certification EIs by 10 gives {np.asarray(r10.NOxEI) / n}'))
+            # the index is a function of the flow's VALUE, not of the array's dtype: whole kg/s as int64 / float32 / int32
+            forms = (np.array([0, 1, 10], dtype=np.int64), np.array([0, 1, 10], dtype=np.float32), np.array([0, 1, 10], dtype=np.int32))
+            evi = forms[(c['f1'] + c['e1']) % 3]
+            ri = np.asarray(BFFM2_EINOx(evi, ei, ffp, Tamb=np.full(3, 288.15), Pamb=np.full(3, 101325.0)).NOxEI, float)
+            if not (ri.shape == (3,) and np.all(np.isfinite(ri)) and np.allclose(ri, n[[4, 2, 3]], rtol=1e-9)):
+                devs.append(('nox:argument-type', f'NOxEI = {ri.tolist()} for flows [0, 1, 10] kg/s handed over as {type(evi).__name__}{"/" + str(evi.dtype) if hasattr(evi, "dtype") else ""}; as float64: {n[[4, 2, 3]].tolist()} for {c}'))
             return devs
         if kind == 'Foa':
             from AEIC.emissions.ei.pmvol import EI_PMvol_FOA3
